@@ -152,8 +152,13 @@ struct AffineForm {
 
 impl AffineForm {
     fn from_constraint(constraint: &Constraint) -> Option<Self> {
-        let mut lhs = Self::from_exp(constraint.lhs())?;
-        lhs.merge(Self::from_exp(constraint.rhs())?, -1.0);
+        // read the sides the way the linearizer will (flattened and simplified), so that
+        // a coefficient is recognised however it is spelled: -2 * x, (0 - 2) * x, (1 + 1) * x
+        let mut lhs = Self::from_exp(&constraint.lhs().clone().flatten().simplify())?;
+        lhs.merge(
+            Self::from_exp(&constraint.rhs().clone().flatten().simplify())?,
+            -1.0,
+        );
         Some(lhs)
     }
 
